@@ -170,13 +170,14 @@ def hybrid(chk, count, n=3):
     ng = [o for o in p2 if o["name"] in ("Kgate", "Vgate", "CKgate")]
     fam = [[a, b, c, d] for a in g2 for b in g1 for c in ng for d in g2]
     step = 4 if chk.tier == "quick" else 1
-    items += [{"n": 2, "circ": c} for c in fam[(chk.seed % step)::step]]
+    items += [{"n": 2, "circ": c, "family": "structured"} for c in fam[(chk.seed % step)::step]]
     res = common.pmap(_hybrid_one, items)
     cases, owners = [], []
     for it, o in zip(items, res):
         chk.traces += 1
         dag = any(x["dag"] for x in it["circ"])
-        f = {"target": "gaussian_merge", "dagger": dag, "length": len(it["circ"])}
+        f = {"target": "gaussian_merge", "dagger": dag, "length": len(it["circ"]), "family": it.get("family", "random"),
+             "displaces": any(x["name"] == "Dgate" for x in it["circ"])}
         det = {"program": short(it["circ"]), "n": it["n"]}
         chk.count(key=("hybrid", json.dumps(it["circ"])), nontrivial=True)
         if not o["ok"]:
